@@ -17,7 +17,9 @@ class Prop:
             "0/2/6 CPU hogs, random sleeps in Bind.Send / receive / TUN Read / TUN Write gates, every 6th run a slow consumer with "
             "one-packet containers so that the 1024-deep per-peer queues fill, every 6th run starts with Down / TUN packets for configured "
             "peers while down / Up before the sessions, every 6th run removes one of 2-3 peers (UAPI remove=true) in the middle of a flood "
-            "of 1300..1400-byte packets at GOMAXPROCS 1..3 (the removed peer's lanes only have to be prefixes); non-trivial = quiescent run with at least 500 "
+            "of 1300..1400-byte packets at GOMAXPROCS 2 (the removed peer's lanes only have to be prefixes), every 2nd run interleaves forged "
+            "datagrams (live receiver index, bad tag; one in 4/10/40) into the inbound flood, one dedicated run per check returns 12 isolated "
+            "temporary receive errors (own conn.Bind wrapper) each followed by a batch that must arrive (about 4.5 s, run concurrently); non-trivial = quiescent run with at least 500 "
             "packets emitted in each direction; distinct by configuration hash")
     assumptions = ["Go channels are FIFO queues, sync.Mutex Lock/Unlock and goroutine scheduling are those of the transition system "
                    "Pipeline/Model.v (sequentially consistent atomic steps); the theorems are about that system",
@@ -51,6 +53,9 @@ class Prop:
             "runs_with_error": sum(1 for c in cases if c["info"].get("error")),
             "runs_with_down_up_prelude": sum(1 for c in cases if c["cfg"].get("down_up")),
             "runs_with_peer_removed_mid_traffic": sum(1 for c in cases if c["cfg"].get("remove")),
+            "runs_with_forged_datagrams": sum(1 for c in cases if c["cfg"].get("forged_one_in")),
+            "forged_datagrams_injected": sum(c["info"].get("forged", 0) for c in cases),
+            "runs_with_isolated_receive_errors": sum(1 for c in cases if c["cfg"].get("recv_errs")),
             "runs_crashed": sum(1 for c in cases if c["info"].get("crash")),
             "datagrams_sent": sum(c["info"].get("datagrams", 0) for c in cases),
             "packets_written": sum(c["info"].get("written", 0) for c in cases),
